@@ -85,7 +85,7 @@ def observe(records, workdir, tag):
     """Validate recorded traces with TLC against ObserverTrace. Returns (violations, states)."""
     d = os.path.join(workdir, "obs-" + tag)
     os.makedirs(d, exist_ok=True)
-    for f in ("ResObserver.tla", "ObserverTrace.tla", "CacheOps.tla", "CacheTrace.tla", "SubQueueTrace.tla", "ResQueueTrace.tla", "SubAccessTrace.tla", "ResSubTrace.tla", "SubReadyTrace.tla"):
+    for f in ("ResObserver.tla", "ObserverTrace.tla", "CacheOps.tla", "CacheTrace.tla", "SubQueueTrace.tla", "ResQueueTrace.tla", "SubAccessTrace.tla", "ResSubTrace.tla", "SubReadyTrace.tla", "ConnQueueTrace.tla"):
         shutil.copy(os.path.join(SPEC, f), d)
     with open(os.path.join(d, "ObserverTrace.cfg"), "w") as f:
         f.write("SPECIFICATION TraceSpec\nPOSTCONDITION TraceAccepted\nCHECK_DEADLOCK FALSE\n")
